@@ -67,9 +67,9 @@ class Check:
                    "ORDER BY is asserted when all values of the key are integers (numeric order) or none is (byte order); AVG is not used as an ordering key"]
 
     def gen(self, rng, tier, index):
-        tops = [rng.choice(gen.SAFE_ROOTS)]
+        tops = rng.sample(gen.SAFE_ROOTS, 2) if rng.random() < 0.25 else [rng.choice(gen.SAFE_ROOTS)]
         world = gen_ordered_world(rng, tops)
-        if rng.random() < 0.1:
+        if rng.random() < 0.1 and len(tops) == 1:
             world = {"nodes": [world["nodes"][0]]}
         for n in world["nodes"]:
             if rng.random() < 0.3 and n["type"] in ("file", "dir"):
@@ -115,7 +115,7 @@ class Check:
             # archive members are entries too: they take part in the partition (with empty values for what a member does not have)
             from .c06 import add_zips
             gen.zipify(rng, world, p=0)
-            add_zips(rng, world, tops)
+            add_zips(rng, world, tops[:1])  # archives (and the option) under the first root only
         keys = rng.sample(GKEYS, rng.choice([1, 1, 2, 2]))
         aggs = ["count(*)"] + rng.sample(AGGS[1:], rng.choice([1, 2, 4, 6]))
         aggs = [a for a in AGGS if a in aggs]
@@ -136,7 +136,7 @@ class Check:
             for p, kv in ov.items():
                 plan.setdefault("stat", {}).setdefault(p, {}).update({k: v for k, v in kv.items() if k == "uid"})
         seeds = [rng.getrandbits(48) for _ in range(3)]
-        return {"world": world, "roots": [{"top": tops[0], "mode": rng.choice(["bfs", "dfs"]) + (" archives" if arc else "")}], "keys": keys, "aggs": aggs, "where": where, "order": order,
+        return {"world": world, "roots": [{"top": tops[0], "mode": rng.choice(["bfs", "dfs"]) + (" archives" if arc else "")}] + [{"top": t_, "mode": rng.choice(["bfs", "dfs"])} for t_ in tops[1:]], "keys": keys, "aggs": aggs, "where": where, "order": order,
                 "plans": envs, "seeds": seeds}
 
     def sample_view(self, case):
@@ -189,7 +189,7 @@ class Check:
         if not keys or not aggs:
             raise CaseInvalid("empty")
         nk = len(keys)
-        fromc = " from %s %s" % (top, case["roots"][0]["mode"])
+        fromc = " from " + ", ".join("%s %s" % (r_["top"], r_["mode"]) for r_ in case["roots"] if r_["top"] in nm)
         wherec = (" where " + case["where"]) if case["where"] else ""
         orderc = (" order by %s%s" % (case["order"]["key"], " desc" if case["order"]["desc"] else "")) if case["order"] else ""
         then = case["order"].get("then") if case["order"] else None
